@@ -23,6 +23,8 @@ type c03Gen struct {
 	scopes []map[string]bool // static approximation of declared names
 	funcs  []c03Fun
 	dead   []c03Fun // functions whose declaring scope has ended
+	jumps  bool     // random generation only: scopes are also left by থামো / চালিয়ে_যাও / ফেরত from inside nested blocks
+	loops  []string // counters of the loops around the current position (inside the current function)
 }
 
 type c03Fun struct {
@@ -93,6 +95,34 @@ func (g *c03Gen) stmt(ind string, depth int, inFunc bool) {
 		choices = 4
 	}
 	w := func(format string, a ...interface{}) { g.b.WriteString(ind + fmt.Sprintf(format, a...) + "\n") }
+	if g.jumps && (len(g.loops) > 0 || inFunc) && g.pick("jump", 6) == 0 {
+		// a scope left by a jump: a block that declares a name of the colliding pool, uses it and jumps out; what
+		// follows the loop (or the call) sees the bindings that were visible before
+		jump := bn.KwReturn + " " + g.u() + ";"
+		cond := fmt.Sprint(g.pick("truth", 2))
+		if len(g.loops) > 0 && (!inFunc || g.pick("loopJump", 3) != 0) {
+			jump = []string{bn.KwBreak + ";", bn.KwContinue + ";"}[g.pick("which", 2)]
+			if g.pick("onPass", 2) == 0 {
+				cond = g.loops[len(g.loops)-1] + " == 1"
+			}
+		}
+		v := c03Vars[g.pick("name", len(c03Vars))]
+		w("%s (%s) {", bn.KwIf, cond)
+		if g.pick("deeper", 2) == 0 {
+			w("  {")
+			w("    %s %s = %s;", bn.KwVar, v, g.u())
+			w("    %s %s;", bn.KwPrint, v)
+			w("    %s", jump)
+			w("  }")
+		} else {
+			w("  %s %s = %s;", bn.KwVar, v, g.u())
+			w("  %s %s;", bn.KwPrint, v)
+			w("  %s", jump)
+		}
+		w("}")
+		w("%s %s;", bn.KwPrint, g.nameFor(false))
+		return
+	}
 	switch g.pick("stmt", choices) {
 	case 0:
 		n := g.nameFor(true)
@@ -161,8 +191,13 @@ func (g *c03Gen) stmt(ind string, depth int, inFunc bool) {
 		w("%s %s = 0;", bn.KwVar, cn)
 		w("%s (%s < 2) {", bn.KwWhile, cn)
 		g.b.WriteString(ind + "  " + cn + " = " + cn + " + 1;\n")
+		g.loops = append(g.loops, cn)
 		g.block(ind+"  ", depth-1, inFunc, 1+g.pick("n", 3))
+		g.loops = g.loops[:len(g.loops)-1]
 		w("}")
+		if g.jumps {
+			w("%s %s;", bn.KwPrint, g.nameFor(false))
+		}
 	case 7:
 		// for loop whose variable comes from the colliding pool
 		v := c03Vars[g.pick("name", len(c03Vars))]
@@ -174,7 +209,9 @@ func (g *c03Gen) stmt(ind string, depth int, inFunc bool) {
 			g.scopes[len(g.scopes)-1][v2] = true
 			w("%s (%s %s = 0, %s = %s; %s < 2; %s = %s + 1) {", bn.KwFor, bn.KwVar, v, v2, g.u(), v, v, v)
 			g.b.WriteString(ind + "  " + bn.KwPrint + " " + v2 + ";\n")
+			g.loops = append(g.loops, v)
 			g.block(ind+"  ", depth-1, inFunc, 1+g.pick("n", 2))
+			g.loops = g.loops[:len(g.loops)-1]
 			w("}")
 			g.pop()
 			return
@@ -184,7 +221,9 @@ func (g *c03Gen) stmt(ind string, depth int, inFunc bool) {
 			w("  %s %s;", bn.KwPrint, g.nameFor(false))
 		} else {
 			w("%s (%s %s = 0; %s < 2; %s = %s + 1) {", bn.KwFor, bn.KwVar, v, v, v, v)
+			g.loops = append(g.loops, v)
 			g.block(ind+"  ", depth-1, inFunc, 1+g.pick("n", 3))
+			g.loops = g.loops[:len(g.loops)-1]
 			w("}")
 		}
 		g.pop()
@@ -219,10 +258,13 @@ func (g *c03Gen) stmt(ind string, depth int, inFunc bool) {
 			g.scopes[len(g.scopes)-1][p] = true
 		}
 		savedFuncs := len(g.funcs)
+		savedLoops := g.loops
+		g.loops = nil
 		n := 1 + g.pick("n", 3)
 		for i := 0; i < n; i++ {
 			g.stmt(ind+"  ", depth-1, true)
 		}
+		g.loops = savedLoops
 		if g.pick("ret", 2) == 0 {
 			g.b.WriteString(ind + "  " + bn.KwReturn + " " + g.nameFor(false) + ";\n")
 		}
@@ -385,7 +427,7 @@ func TestC03(t *testing.T) {
 			c.c03Program(s, "coinciding-names", genCoincidingNames(rt))
 		})
 		c.Rapid("rand-programs", n, func(rt *rapid.T, s *Sub) {
-			g := &c03Gen{budget: rapid.IntRange(4, 40).Draw(rt, "budget")}
+			g := &c03Gen{budget: rapid.IntRange(4, 40).Draw(rt, "budget"), jumps: rapid.Bool().Draw(rt, "jumps")}
 			g.pick = func(label string, n int) int { return rapid.IntRange(0, n-1).Draw(rt, label) }
 			src := g.program(rapid.IntRange(1, 5).Draw(rt, "depth"), rapid.IntRange(2, 8).Draw(rt, "top"))
 			c.c03Program(s, "rand-programs", place(src, drawPlacement(rt)))
